@@ -354,7 +354,13 @@ func metaHist(h histCase) vt.Meta {
 }
 
 func TestHistories(t *testing.T) {
-	vt.Run(t, rec, vt.Prop[histCase]{Kind: "history", Gen: genHist, Check: checkHist, Meta: metaHist}, vt.N(1500, 12000))
+	vt.Run(t, rec, vt.Prop[histCase]{Kind: "history", Gen: genHist, Check: checkHist, Meta: metaHist, Reduce: func(h histCase) []histCase {
+		var out []histCase
+		for _, ops := range vt.DropOne(h.Ops) {
+			out = append(out, histCase{Ops: ops})
+		}
+		return out
+	}}, vt.N(1500, 12000))
 }
 
 // TestRepairMatrix: every damage kind on a stored output followed by Put of the same content must repair it (deterministic).
